@@ -104,6 +104,8 @@ func structPayload(v interface{}) ([]byte, error) {
 							wr.writeBytes(tag, b)
 						}
 					}
+				} else if vValue.Kind() == reflect.Ptr && vValue.IsNil() {
+					// nothing to encode, like an empty struct
 				} else {
 					e := interfaceOf(vValue)
 					if b, err := structPayload(e); err != nil {
